@@ -797,12 +797,47 @@ def r01c(chk, repo) -> None:
     chk.floor("R01c.placeholder_yields", 3)
 
 
+def r01d(chk, repo) -> None:
+    """Piece k of a split element is ``raw[c_k : c_k + inc_k]`` with ``c_{k+1} = c_k + inc_k`` and has to end where the
+    slice ends: ``c_k + inc_k == <slice stop> - <element start>``.  The right-hand side does not depend on ``c``; hence
+    an ``inc`` that does not read ``c`` cannot satisfy it for the second and later pieces."""
+    from ..cfg import cfg_of, origins
+
+    f = repo.fn("src/sqlfluff/core/parser/lexer.py", "_iter_segments")
+    cfg = cfg_of(f)
+    n = 0
+    for st in walk_local(f):
+        acc = inc = None
+        if isinstance(st, ast.AugAssign) and isinstance(st.op, ast.Add) and isinstance(st.target, ast.Name):
+            acc, inc = st.target.id, st.value
+        elif isinstance(st, ast.Assign) and len(st.targets) == 1 and isinstance(st.targets[0], ast.Name) and isinstance(st.value, ast.BinOp) and isinstance(st.value.op, ast.Add) \
+                and isinstance(st.value.left, ast.Name) and st.value.left.id == st.targets[0].id:
+            acc, inc = st.targets[0].id, st.value.right
+        if acc is None or "consumed" not in acc:
+            continue
+        n += 1
+        exprs = [inc]
+        if isinstance(inc, ast.Name):
+            exprs = [o.expr for o in origins(cfg, inc, st) if o.kind == "expr"]
+        ok = bool(exprs) and all(any(isinstance(x, ast.Name) and x.id == acc for x in ast.walk(e)) for e in exprs)
+        chk.require(
+            ok, "R01d", st,
+            f"_iter_segments adds `{short(inc, 40)}` to `{acc}` but that amount is not computed from `{acc}`: from the second split of an element on, the piece is cut past the end of "
+            "its slice, the pieces get overlapping or inverted source positions and some source characters are covered by no token",
+            detail=f"_iter_segments: step added to {acc} is measured from the running position",
+        )
+    chk.count("R01d.running_length_steps", n)
+    chk.floor("R01d.running_length_steps", 1)
+
+
 def run(chk) -> None:
     repo = chk.repo
     chk.rule("R01a", "for every dialect, every character the last-resort matcher cannot consume is consumed by some matcher of the dialect's resolved lexer table (lex never reaches 'Fatal. Unable to lex')")
     chk.rule("R01b", "PyLexer.lex returns violations_from_segments(returned segments); that creates one SQLLexError per segment of the last-resort type; Linter._lex_templated_file returns them all, never drops a non-meta token and converts a raised SQLLexError into a violation")
     chk.rule("R01c", "whether a placeholder (TemplateSegment) is emitted for source the rendering does not cover never depends on the `template_blocks_indent` switch: no yield of a TemplateSegment in the lexer is conditioned on the add_indents parameter (that switch may only decide Indent / Dedent metas)")
     r01c(chk, repo)
+    chk.rule("R01d", "a lexed element that is split over several slices is cut where the previous piece ended: in _iter_segments every amount added to the running consumed length is computed from that running length (a step measured from the start of the element overshoots from the second split on)")
+    r01d(chk, repo)
     lr = last_resort(repo)
     r01b(chk, repo, lr)
     in_selftest = getattr(chk, "in_selftest", False)
@@ -839,6 +874,18 @@ _FILTER_OLD = (
 )
 
 VARIANTS = [
+    Variant(
+        "split-step-measured-from-the-element-start", "src/sqlfluff/core/parser/lexer.py",
+        "                            tfs.templated_slice.stop\n                            - element.template_slice.start\n                            - consumed_element_length\n",
+        "                            tfs.templated_slice.stop\n                            - element.template_slice.start\n",
+        "R01d", "_iter_segments", "the defect repaired by eea0344: spaces around three tags in a row get inverted source slices",
+    ),
+    Variant(
+        "quiet-split-step-from-a-named-position", "src/sqlfluff/core/parser/lexer.py",
+        "                            tfs.templated_slice.stop\n                            - element.template_slice.start\n                            - consumed_element_length\n",
+        "                            tfs.templated_slice.stop\n                            - (element.template_slice.start + consumed_element_length)\n",
+        "QUIET", None, "R01d: the same step with the running position bracketed",
+    ),
     Variant(
         "skipped-source-placeholder-only-with-template-indents", "src/sqlfluff/core/parser/lexer.py",
         "        if next_tfs and next_tfs.source_slice.start > tfs.source_slice.stop:\n",
